@@ -1042,7 +1042,14 @@ func (t *tracer) elements(s ssa.Value, depth int) bool {
 				}
 				return true
 			}
-			if al, ok := x.X.(*ssa.Alloc); ok {
+			cell := x.X
+			if fv, isFV := cell.(*ssa.FreeVar); isFV {
+				// (the variable as seen from a closure that captured it)
+				if b := bindingOf(fv); b != nil {
+					cell = b
+				}
+			}
+			if al, ok := cell.(*ssa.Alloc); ok {
 				// a slice variable spilled to a cell
 				sts := CellStores(al)
 				if len(sts) == 0 {
@@ -1053,12 +1060,60 @@ func (t *tracer) elements(s ssa.Value, depth int) bool {
 						return false
 					}
 				}
+				// elements assigned in place through the variable: `xs[i] = v`
+				for _, ld := range cellLoads(al) {
+					for _, r := range *ld.Referrers() {
+						ia, isIA := r.(*ssa.IndexAddr)
+						if !isIA || ia.X != ssa.Value(ld) {
+							continue
+						}
+						for _, r2 := range *ia.Referrers() {
+							if st, isSt := r2.(*ssa.Store); isSt && st.Addr == ssa.Value(ia) {
+								if t.rawElems {
+									t.out = append(t.out, st.Val)
+								} else {
+									t.walk(st.Val)
+								}
+							}
+						}
+					}
+				}
 				return true
 			}
 		}
 		return false
 	}
 	return false
+}
+
+// cellLoads lists the loads of the local cell a, in its function and in every
+// closure that captures it.
+func cellLoads(a *ssa.Alloc) []*ssa.UnOp {
+	var out []*ssa.UnOp
+	var visit func(addr ssa.Value)
+	visit = func(addr ssa.Value) {
+		refs := addr.Referrers()
+		if refs == nil {
+			return
+		}
+		for _, r := range *refs {
+			switch x := r.(type) {
+			case *ssa.UnOp:
+				if x.Op == token.MUL && x.X == addr {
+					out = append(out, x)
+				}
+			case *ssa.MakeClosure:
+				g := x.Fn.(*ssa.Function)
+				for i, bnd := range x.Bindings {
+					if bnd == addr && i < len(g.FreeVars) {
+						visit(g.FreeVars[i])
+					}
+				}
+			}
+		}
+	}
+	visit(a)
+	return out
 }
 
 type elemKey struct{ v ssa.Value }
@@ -1422,6 +1477,41 @@ func EdgeConds(pred, succ *ssa.BasicBlock) []Cond {
 	out := CondsAt(pred)
 	if own, ok := EdgeOwnCond(pred, succ); ok {
 		out = append(out, normalizeAll([]Cond{own}, 0)...)
+	}
+	return out
+}
+
+// ImpliedByPhiTests: what a nil test of a variable assigned on particular
+// branches says about the branch taken. For every outcome in conds that
+// compares a phi with nil, the incoming edges whose value is known to be the
+// other way round (the nil constant, resp. a value nonNil vouches for) are
+// ruled out; when exactly one edge remains, the outcomes known on it hold too
+// (`var e error; if a { e = errA } else if n, err := parse(); err != nil { e = errB } else { v = n };
+// if e != nil { return e }` — past the test, err == nil).
+func ImpliedByPhiTests(conds []Cond, nonNil func(ssa.Value) bool) []Cond {
+	var out []Cond
+	for _, cd := range conds {
+		x, eq, ok := NilCompare(cd.V)
+		if !ok {
+			continue
+		}
+		phi, isPhi := x.(*ssa.Phi)
+		if !isPhi {
+			continue
+		}
+		wantNil := eq == cd.Truth
+		feasible := -1
+		n := 0
+		for i, e := range phi.Edges {
+			if (IsNilConst(e) && !wantNil) || (!IsNilConst(e) && nonNil(e) && wantNil) {
+				continue
+			}
+			feasible = i
+			n++
+		}
+		if n == 1 {
+			out = append(out, EdgeConds(phi.Block().Preds[feasible], phi.Block())...)
+		}
 	}
 	return out
 }
@@ -2734,6 +2824,38 @@ func evalBool(p *Prog, f *ssa.Function, atomOf func(ssa.Value) (name string, neg
 					return evalBool(p, h, atomOf, assign, level+1)
 				}
 			}
+		case *ssa.BinOp:
+			// the verdict of a private classifier compared with a constant (`j.kind() != reply`):
+			// known when every constant the classifier can return under the assignment compares alike
+			if p != nil && (x.Op == token.EQL || x.Op == token.NEQ) {
+				call, isCall := x.X.(*ssa.Call)
+				k, isK := x.Y.(*ssa.Const)
+				if !isCall {
+					call, isCall = x.Y.(*ssa.Call)
+					k, isK = x.X.(*ssa.Const)
+				}
+				if isCall && isK && k.Value != nil {
+					if h := call.Call.StaticCallee(); h != nil && p.InRepo[h] && !exported(h) && h.Signature.Results().Len() == 1 {
+						set, known := evalConstSet(p, h, atomOf, assign, level+1)
+						if !known || len(set) == 0 {
+							return false, false
+						}
+						want := k.Value.ExactString()
+						nEq := 0
+						for c := range set {
+							if c == want {
+								nEq++
+							}
+						}
+						switch {
+						case nEq == len(set) && len(set) == 1:
+							return x.Op == token.EQL, true
+						case nEq == 0:
+							return x.Op == token.NEQ, true
+						}
+					}
+				}
+			}
 		}
 		return false, false
 	}
@@ -2780,6 +2902,133 @@ func evalBool(p *Prog, f *ssa.Function, atomOf func(ssa.Value) (name string, neg
 		}
 	}
 	return false, false
+}
+
+// evalConstSet lists the constants (rendered exactly) f can return under a
+// truth assignment to atoms: branches the assignment decides are followed,
+// branches it does not decide are followed both ways. known is false when a
+// return is not a constant or the walk does not finish quickly.
+func evalConstSet(p *Prog, f *ssa.Function, atomOf func(ssa.Value) (name string, neg, ok bool), assign map[string]bool, level int) (set map[string]bool, known bool) {
+	if len(f.Blocks) == 0 || level > 3 {
+		return nil, false
+	}
+	set = map[string]bool{}
+	budget := 400
+	var evalCond func(v ssa.Value, phis map[*ssa.Phi]bool, depth int) (bool, bool)
+	evalCond = func(v ssa.Value, phis map[*ssa.Phi]bool, depth int) (bool, bool) {
+		if depth > 20 {
+			return false, false
+		}
+		if name, neg, isAtom := atomOf(v); isAtom {
+			val, has := assign[name]
+			if !has {
+				return false, false
+			}
+			return val != neg, true
+		}
+		switch x := v.(type) {
+		case *ssa.Const:
+			if x.Value != nil && x.Value.Kind() == constant.Bool {
+				return constant.BoolVal(x.Value), true
+			}
+		case *ssa.UnOp:
+			if x.Op == token.NOT {
+				r, ok := evalCond(x.X, phis, depth+1)
+				return !r, ok
+			}
+		case *ssa.Phi:
+			if r, has := phis[x]; has {
+				return r, true
+			}
+		case *ssa.BinOp:
+			// `true == <expr>`: a case of a tagless switch
+			if x.Op == token.EQL || x.Op == token.NEQ {
+				for _, pr := range [][2]ssa.Value{{x.X, x.Y}, {x.Y, x.X}} {
+					if k, isK := pr[0].(*ssa.Const); isK && k.Value != nil && k.Value.Kind() == constant.Bool {
+						r, ok := evalCond(pr[1], phis, depth+1)
+						return (r == constant.BoolVal(k.Value)) == (x.Op == token.EQL), ok
+					}
+				}
+			}
+		case *ssa.Call:
+			if h := x.Call.StaticCallee(); h != nil && p.InRepo[h] && h.Signature.Results().Len() == 1 && h.Signature.Results().At(0).Type().String() == "bool" {
+				return evalBool(p, h, atomOf, assign, level+1)
+			}
+		}
+		return false, false
+	}
+	ok := true
+	var walk func(b, prev *ssa.BasicBlock, phis map[*ssa.Phi]bool, steps int)
+	walk = func(b, prev *ssa.BasicBlock, phis map[*ssa.Phi]bool, steps int) {
+		budget--
+		if budget <= 0 || steps > 60 {
+			ok = false
+			return
+		}
+		// boolean phis (short-circuit tests), from the edge taken
+		var mine map[*ssa.Phi]bool
+		for _, ins := range b.Instrs {
+			phi, isPhi := ins.(*ssa.Phi)
+			if !isPhi {
+				break
+			}
+			for i, pb := range b.Preds {
+				if pb != prev {
+					continue
+				}
+				if r, decided := evalCond(phi.Edges[i], phis, 0); decided {
+					if mine == nil {
+						mine = map[*ssa.Phi]bool{}
+						for k, v := range phis {
+							mine[k] = v
+						}
+					}
+					mine[phi] = r
+				}
+			}
+		}
+		if mine != nil {
+			phis = mine
+		}
+		switch x := b.Instrs[len(b.Instrs)-1].(type) {
+		case *ssa.Return:
+			if len(x.Results) != 1 {
+				ok = false
+				return
+			}
+			v := x.Results[0]
+			if phi, isPhi := v.(*ssa.Phi); isPhi && phi.Block() == b {
+				for i, pb := range b.Preds {
+					if pb == prev {
+						v = phi.Edges[i]
+					}
+				}
+			}
+			k, isK := v.(*ssa.Const)
+			if !isK || k.Value == nil {
+				ok = false
+				return
+			}
+			set[k.Value.ExactString()] = true
+		case *ssa.If:
+			if r, decided := evalCond(x.Cond, phis, 0); decided {
+				if r {
+					walk(b.Succs[0], b, phis, steps+1)
+				} else {
+					walk(b.Succs[1], b, phis, steps+1)
+				}
+				return
+			}
+			walk(b.Succs[0], b, phis, steps+1)
+			walk(b.Succs[1], b, phis, steps+1)
+		case *ssa.Jump:
+			walk(b.Succs[0], b, phis, steps+1)
+		default:
+			ok = false
+		}
+	}
+	walk(f.Blocks[0], nil, map[*ssa.Phi]bool{}, 0)
+	return set, ok
 }
 
 // WalkNilPaths enumerates the acyclic paths from block start that are feasible
